@@ -107,6 +107,46 @@ def enc(detector, p0=0.0, p1=0.0, p2=0.0, nslots=1, sleep_scale=0.0, sleep_mult=
         time.sleep(s)
 
 
+def encs(detector, ident=0, slots="", a=0.0, b=0.0, c=0.0, d=0.0, sleep_scale=0.0, sleep_mult=1, slow_sum=None):
+    """One of SEVERAL probe instances in a pipeline (parameters with the same short name live in different
+    model instances).  `slots` = "a:0,c:2": the value RECEIVED for argument `a` is written (as the injective
+    code of `encode([value])`) into pixel[0, 0], the one for `c` into pixel[0, 2]; the other columns are left
+    as they are.  signal[0, slot] = how many runs had executed THIS instance on the detector object before."""
+    got = dict(a=a, b=b, c=c, d=d)
+    geo = detector.geometry
+    try:
+        pix = np.array(detector.pixel.array, dtype=float)
+    except Exception:  # noqa: BLE001  (not initialised yet)
+        pix = np.zeros((geo.row, geo.col))
+    try:
+        sig = np.array(detector.signal.array, dtype=float)
+    except Exception:  # noqa: BLE001
+        sig = np.zeros((geo.row, geo.col))
+    mems = getattr(detector, "_c07_mems", None)
+    if mems is None:
+        mems = {}
+        detector._c07_mems = mems
+    mem = mems.get(int(ident), 0)
+    mems[int(ident)] = mem + 1
+    total = 0
+    for item in str(slots).split(","):
+        if not item:
+            continue
+        name, slot = item.split(":")
+        code, t = encode([got[name]])
+        total += t
+        pix[:, int(slot)] = float(code)
+        sig[:, int(slot)] = float(mem)
+    detector.pixel.array = pix
+    detector.signal.array = sig
+    if sleep_scale:
+        if slow_sum is not None:
+            s = sleep_scale if total == int(slow_sum) else 0.0
+        else:
+            s = sleep_scale * ((int(sleep_mult) * total) % 5) / 4.0
+        time.sleep(s)
+
+
 def draw(detector, p0=0.0, n=1, sync=False, first=0.0, pause=0.0):
     """Draw n numbers from the process-wide generator; pixel = d0 + d1 * 2^20."""
     threaded = threading.current_thread() is not threading.main_thread()
